@@ -262,14 +262,16 @@ Proof.
   - eapply chain_transfer; [|apply U, H]. eapply adj_rel_weaken; [|exact M]. simpl. tauto.
 Qed.
 
-(** or_sorted_flags_rev (repaired): truthful when the result's rows are an antitone image of the
-    argument's rows - required only for number results; characters and boxes get no marks *)
-Lemma or_sorted_rev_sound v v' cur taken :
+(** or_sorted_flags_rev (any version after the character repair): truthful when the result's
+    rows are an antitone image of the argument's rows - required only for number and complex
+    results; characters and boxes get no marks *)
+Lemma or_sorted_rev_sound ver v v' cur taken : (1 <= ver)%nat ->
   flags_okb v' cur = true -> flags_okb v (sorted_part taken) = true ->
   (match v' with VBox _ _ | VChar _ _ => True | _ => antitone_rows v v' end) ->
-  flags_okb v' (or_sorted_rev true v' cur taken) = true.
+  flags_okb v' (or_sorted_rev ver v' cur taken) = true.
 Proof.
-  intros C T A. unfold or_sorted_rev.
+  intros V C T A. unfold or_sorted_rev.
+  assert (L : Nat.leb 1 ver = true) by (apply Nat.leb_le; exact V). rewrite L.
   assert (CS : flags_okb v' (clear_sorted cur) = true) by (apply take_sorted_sound; auto).
   destruct v'; simpl andb; cbv iota; auto;
     (destruct (negb (f_up taken || f_down taken)); auto;
@@ -614,23 +616,129 @@ Theorem flag_algebra_sound :
                   flags_okb v' (sorted_part (reverse_sorted f)) = true) /\
   (forall v v' cur taken, flags_okb v' cur = true -> flags_okb v (sorted_part taken) = true ->
                   (match v' with VBox _ _ | VChar _ _ => True | _ => antitone_rows v v' end) ->
-                  flags_okb v' (or_sorted_rev true v' cur taken) = true).
+                  flags_okb v' (or_sorted_rev cur_ver v' cur taken) = true).
 Proof.
   repeat split.
   - apply take_sorted_sound; auto. - apply take_sorted_sound; auto.
   - apply take_value_sound. - apply or_sorted_sound. - apply mark_up_sound. - apply mark_down_sound.
   - apply combine_sound. - apply reverse_sorted_sound. - apply derive_sortedness_sound.
-  - apply monotone_sound. - apply antitone_sound. - apply or_sorted_rev_sound.
+  - apply monotone_sound. - apply antitone_sound. - intros v v' cur taken. apply or_sorted_rev_sound. unfold cur_ver; lia.
 Qed.
 
-(** the marks rules of the CURRENT code that the monitor refutes, as theorems about the model:
-    floor keeps the marks of a box array / complex array although rounding is not monotone for
-    the lexicographic order of their elements *)
-Lemma floor_rule_refuted :
-  exists a out f, wf a /\ rule_flags RFloor [a] out = Some f /\ wf_shape out = true /\ flags_okb out f = false.
+(* ------------------------------------------------------------------ round-2 repairs *)
+
+(** Before f306b49 floor/ceil/round kept the marks of box and complex arrays, although rounding
+    is not monotone for the lexicographic order of their elements (`⌊⍆[ℂ5 1.2 ℂ0 1.7]`). *)
+Lemma floor_rule_refuted_pre :
+  exists a out f, wf a /\ rule_flags false RFloor [a] out = Some f /\ wf_shape out = true /\ flags_okb out f = false.
 Proof.
   (* a = sorted [1.2+5i, 1.7+0i] (as (re, im) bit patterns), out = [1+5i, 1+0i] *)
   exists (MV (VCplx [2%nat] [(4608083138725491507, 4617315517961601024); (4610560118520545280, 0)]%N) (FL false true false)).
   exists (VCplx [2%nat] [(4607182418800017408, 4617315517961601024); (4607182418800017408, 0)]%N).
   eexists. repeat split; vm_compute; reflexivity.
+Qed.
+
+Definition is_round (p : rprim) : bool := match p with RFloor | RCeil | RRound => true | _ => false end.
+
+(** the repaired rule gives sortedness marks to arrays of real numbers only ... *)
+Lemma round_rule_fixed_nonreal p a out f : is_round p = true -> is_num_ty out = false ->
+  rule_flags true p [a] out = Some f -> f_up f = false /\ f_down f = false.
+Proof.
+  intros P N E. destruct p; try discriminate P; simpl in E; rewrite N, andb_false_r in E;
+    inversion E; subst; simpl; auto.
+Qed.
+(** ... and is truthful whenever rounding maps the rows of the argument monotonically (which it
+    does for lists of real numbers: the side condition of the rule) *)
+Lemma round_rule_fixed p a out f : is_round p = true ->
+  flags_okb (mv_v a) (mv_f a) = true -> rule_flags true p [a] out = Some f ->
+  (f_bool (mv_f a) = true -> bool_ok out = true) ->
+  (is_num_ty out = true -> monotone_rows (mv_v a) out) -> flags_okb out f = true.
+Proof.
+  intros P W E B M.
+  assert (C : flags_okb out (clear_sorted (mv_f a)) = true).
+  { apply flags_okb_iff. simpl. repeat split; auto; discriminate. }
+  assert (G : forall c, Some (if c && (negb true || is_num_ty out)
+                then or_sorted (clear_sorted (mv_f a)) (sorted_part (mv_f a)) else clear_sorted (mv_f a)) = Some f ->
+              flags_okb out f = true).
+  { intros c X. inversion X; subst; clear X. simpl negb. simpl orb.
+    destruct c; simpl; auto. destruct (is_num_ty out) eqn:N; auto.
+    apply or_sorted_sound; auto. apply (monotone_sound (mv_v a)); auto.
+    apply take_sorted_sound. apply take_sorted_sound. exact W. }
+  destruct p; try discriminate P; simpl in E; eapply G; exact E.
+Qed.
+
+(** The dyadic rules before the repairs, refuted on the witnesses the monitor found:
+    `+ ⍆[¯∞ 1] ⍆[∞ ∞]` = [NaN ∞] marked ascending (eea1d01);
+    `÷ ¯0 ⇌⍆[0.5 149 ¯∞]` = [¯∞ ¯∞ ∞] marked descending (60de79d);
+    `÷ ⍆[¯1 1] 1` = [¯1 1] marked descending (9703aa4). *)
+Definition w_add_a := MV (VNum [2%nat] [18442240474082181120; 4607182418800017408]%N) (FL false true false).
+Definition w_add_b := MV (VNum [2%nat] [9218868437227405312; 9218868437227405312]%N) (FL false true false).
+Definition w_add_out := VNum [2%nat] [9221120237041090560; 9218868437227405312]%N.
+Definition w_div0_a := MV (VNum []%nat [9223372036854775808]%N) fl_none.
+Definition w_div0_b := MV (VNum [3%nat] [4639446488005476352; 4602678819172646912; 18442240474082181120]%N) (FL false false true).
+Definition w_div0_out := VNum [3%nat] [18442240474082181120; 18442240474082181120; 9218868437227405312]%N.
+Definition w_dvd_a := MV (VNum [2%nat] [13830554455654793216; 4607182418800017408]%N) (FL false true false).
+Definition w_dvd_b := MV (VByte []%nat [1]%N) fl_none.
+Definition w_dvd_out := VNum [2%nat] [13830554455654793216; 4607182418800017408]%N.
+Definition rule_truthful (fixed : bool) (p : rprim) (args : list mvalue) (out : value) : bool :=
+  forallb wfb args && wf_shape out &&
+  match rule_flags fixed p args out with Some f => flags_okb out f | None => false end.
+Lemma dyadic_rules_refuted_pre :
+  rule_truthful false RAdd [w_add_a; w_add_b] w_add_out = false /\
+  rule_truthful false RDiv [w_div0_a; w_div0_b] w_div0_out = false /\
+  rule_truthful false RDiv [w_dvd_a; w_dvd_b] w_dvd_out = false.
+Proof. repeat split; vm_compute; reflexivity. Qed.
+Lemma dyadic_rules_fixed_witnesses :
+  rule_truthful true RAdd [w_add_a; w_add_b] w_add_out = true /\
+  rule_truthful true RDiv [w_div0_a; w_div0_b] w_div0_out = true /\
+  rule_truthful true RDiv [w_dvd_a; w_dvd_b] w_dvd_out = true.
+Proof. repeat split; vm_compute; reflexivity. Qed.
+
+(** the repaired `pre` rules take marks from lists of real numbers (or characters, for
+    subtract) only, never from the dividend side, and count ¯0 as negative *)
+Lemma pre_signed_fixed_guard left a b l f : pre_signed true left a b l = Some f ->
+  rank_le1 (mv_v a) = true /\ is_num_ty (mv_v a) = true /\
+  (forall s, left = Some s -> l = s).
+Proof.
+  unfold pre_signed. destruct (scalar_sign true (mv_v b)); try discriminate.
+  destruct (rank_le1 (mv_v a)), (is_num_ty (mv_v a)); simpl; try discriminate.
+  intros H. repeat split. intros s ->. destruct l, s; simpl in H; auto; discriminate.
+Qed.
+Lemma pre_scalar_fixed_guard left a b l f : pre_scalar true left a b l = Some f ->
+  rank_le1 (mv_v a) = true /\ (is_num_ty (mv_v a) || is_char_ty (mv_v a)) = true.
+Proof.
+  unfold pre_scalar. destruct (negb _); try discriminate.
+  destruct (rank_le1 (mv_v a)), (is_num_ty (mv_v a) || is_char_ty (mv_v a)); simpl; try discriminate; auto.
+Qed.
+Lemma pre_both_fixed_guard a b f : pre_both true a b = Some f ->
+  rank_le1 (mv_v a) = true /\ rank_le1 (mv_v b) = true /\ nan_at_end (mv_v a) = false /\ nan_at_end (mv_v b) = false.
+Proof.
+  unfold pre_both. destruct (negb _); try discriminate.
+  destruct (rank_le1 (mv_v a)), (rank_le1 (mv_v b)), (nan_at_end (mv_v a)), (nan_at_end (mv_v b));
+    simpl; try discriminate; auto.
+Qed.
+Lemma scalar_sign_neg_zero : scalar_sign true (VNum [] [F_NEG_ZERO]) = Some true /\
+                             scalar_sign false (VNum [] [F_NEG_ZERO]) = Some false.
+Proof. split; vm_compute; reflexivity. Qed.
+(** handle_pre is truthful when the marks it or-s in are truthful about the result: the
+    obligation each dyadic function owes for lists of real numbers (x+c, c-x, x*c, x/c monotone
+    or antitone), NaN results excepted by the guard *)
+Lemma handle_pre_sound ng res resf pa pb :
+  flags_okb res resf = true ->
+  (forall g, or_else pa pb = Some g -> ng && has_nan res = false -> flags_okb res (sorted_part g) = true) ->
+  flags_okb res (handle_pre ng res resf pa pb) = true.
+Proof.
+  intros R G. unfold handle_pre.
+  destruct (or_else pa pb) as [g|] eqn:E.
+  - destruct (ng && has_nan res) eqn:N.
+    + destruct ng; try discriminate. simpl in N. rewrite N.
+      destruct (f_up (or_sorted resf g) || f_down (or_sorted resf g)) eqn:Q; simpl.
+      * eapply flags_weaken; [|exact R]. unfold fle; simpl; intuition discriminate.
+      * apply orb_false_elim in Q as [Q1 Q2].
+        eapply flags_weaken; [|exact R]. unfold fle. rewrite Q1, Q2. simpl. intuition discriminate.
+    + assert (O : flags_okb res (or_sorted resf g) = true) by (apply or_sorted_sound; auto).
+      replace (ng && (f_up (or_sorted resf g) || f_down (or_sorted resf g)) && has_nan res) with false; auto.
+      destruct ng; auto. simpl in *. rewrite N, andb_false_r. reflexivity.
+  - destruct (ng && (f_up resf || f_down resf) && has_nan res); auto.
+    eapply flags_weaken; [|exact R]. unfold fle; simpl; intuition discriminate.
 Qed.
